@@ -35,13 +35,17 @@ def BCore (tbl : Table) (fs : FlagMap) (inpW : Bytes) (δ d skip : Nat) (ms mw :
 def BRel (tbl : Table) (fs : FlagMap) (inpW : Bytes) (δ d skip : Nat) (ms mw : M κ) : Prop :=
   BCore tbl fs inpW δ d skip ms mw ∧ ms.x.prevConsumed = mw.x.prevConsumed + δ
 
-/-- both runs made the same step -/
-def LockOut (tbl : Table) (fs : FlagMap) (inpW : Bytes) (δ : Nat) (K : Nat → κ → κ → Prop)
+/-- both runs made the same step. `eoi`: a common break (`endOfInput` in both runs) is an allowed outcome;
+it then relates the two re-based machines in the frame of the remaining text debt. -/
+def LockOut (tbl : Table) (fs : FlagMap) (inpW : Bytes) (δ : Nat) (K : Nat → κ → κ → Prop) (eoi : Bool)
     (rs rw : M κ × Option Signal) : Prop :=
   SPanic rs.2 ∨
   (match rs.2, rw.2 with
    | none, none => ∃ d', BRel tbl fs inpW δ d' 0 rs.1 rw.1 ∧ K d' rs.1.x.sink rw.1.x.sink
-   | some (.endOfInput c), some (.endOfInput c') => ∃ d', c' + d' = c + δ ∧ K d' rs.1.x.sink rw.1.x.sink
+   | some (.endOfInput c), some (.endOfInput c') =>
+       eoi = true ∧ ∃ d', c' + d' = c + δ ∧ K d' rs.1.x.sink rw.1.x.sink ∧ rw.1.x.sim = rs.1.x.sim ∧
+         rs.1.x.prevConsumed = rw.1.x.prevConsumed + δ ∧
+         (rs.1.c.isLast = false → BCore tbl fs inpW d' d' 0 rs.1 rw.1)
    | some (.directive dr bm), some (.directive dr' bm') =>
        SigRel δ 0 (some (.directive dr bm)) (some (.directive dr' bm')) ∧
        ∃ ab'', MRel δ 0 0 ab'' .none rs.1 rw.1 ∧ K 0 rs.1.x.sink rw.1.x.sink
@@ -175,9 +179,9 @@ theorem BSide.plain {tbl : Table} (inpW : Bytes) (cs : Common) (npw : Nat) : BSi
   fun _ _ => ⟨Or.inl rfl, fun h => absurd h (Nat.lt_irrefl 0), fun h => absurd h (Nat.lt_irrefl 0)⟩
 
 /-- related signals (with the machine relation on a directive change) as a step outcome -/
-theorem lockOut_of_sig {tbl : Table} {fs : FlagMap} {ms mw : M κ} {sg sg' : Signal}
+theorem lockOut_of_sig {tbl : Table} {fs : FlagMap} {eoi : Bool} {ms mw : M κ} {sg sg' : Signal}
     (hs : SigRel δ 0 (some sg) (some sg')) (hdir : DirOk δ K (ms, some sg) (mw, some sg')) :
-    LockOut tbl fs inpW δ K (ms, some sg) (mw, some sg') := by
+    LockOut tbl fs inpW δ K eoi (ms, some sg) (mw, some sg') := by
   right
   cases sg with
   | err e => cases sg' <;> first | exact hs | exact hs.elim
@@ -189,10 +193,10 @@ theorem lockOut_of_sig {tbl : Table} {fs : FlagMap} {ms mw : M κ} {sg sg' : Sig
     | endOfInput c => exact hs.elim
 
 /-- an arm body's outcome as a step outcome -/
-theorem body_to_lock {fs : FlagMap} {st : StateId} {sd : StateDef} {c0 : Common}
+theorem body_to_lock {fs : FlagMap} {st : StateId} {sd : StateDef} {c0 : Common} {eoi : Bool}
     (cx : StepCtx env.tbl fs st sd c0) {rs rw : M κ × Option Signal × SeqEnd}
     (hb : BodySim δ K fs st true c0 rs rw) :
-    LockOut env.tbl fs inpW δ K (rs.1, rs.2.1) (rw.1, rw.2.1) := by
+    LockOut env.tbl fs inpW δ K eoi (rs.1, rs.2.1) (rw.1, rw.2.1) := by
   rcases hb with hp | ⟨hs, hend, hdir, hm⟩
   · exact Or.inl hp
   · cases hrs : rs.2.1 with
@@ -323,21 +327,43 @@ end
 section
 variable {env : Env κ} {inpS inpW : Bytes} {δ : Nat} {K : Nat → κ → κ → Prop}
 
+theorem chSeqOf_none_of_rel {δ d skip : Nat} {ab : Ab} {ms mw : M κ} (h : MRel δ d skip ab .none ms mw) :
+    chSeqOf ms.r = none ∧ chSeqOf mw.r = none := by
+  obtain ⟨_, hr, _, _⟩ := h
+  obtain ⟨cs, rs, xs⟩ := ms
+  obtain ⟨cw, rw, xw⟩ := mw
+  cases rs <;> cases rw
+  · exact ⟨rfl, rfl⟩
+  · exact hr.elim
+  · exact hr.elim
+  · exact hr.2.2
+
 /-- `break_split`, packaged as a `BreakOut` -/
 theorem breakOut_of_split {fs : FlagMap} {st : StateId} {sd : StateDef} {d0 d : Nat} {sm : SeqMode} {ms mw mw0 : M κ}
     (cx : StepCtx env.tbl fs st sd ms.c) (h : MRel δ d 0 (fs st).2.inStep sm ms mw) (hl : ms.c.isLast = false)
     (hsm : sm = .none ∨ (sm = .inSeq ∧ hasSeq sd = true)) (hdebt : 0 < d → hasEoc sd = true)
     (npw0 : Nat) (hnp : npw0 ≤ ms.c.nextPos - 1 + δ)
     (hskip : 0 < ms.c.nextPos - 1 + δ - npw0 → ∃ nd, sd.memchr = some nd ∧ SkipOk nd inpW npw0 (ms.c.nextPos - 1 + δ - npw0))
-    (hc0 : mw0.c = { mw.c with nextPos := npw0 }) (hx0 : mw0.x = mw.x) (hr0 : mw0.r = (leaveSeq mw).r)
+    (hc0 : mw0.c = { mw.c with nextPos := npw0 }) (hx0 : mw0.x = mw.x) (hr0 : (leaveSeq mw0).r = (leaveSeq mw).r)
+    (hq0 : hasSeq sd = false → chSeqOf mw0.r = none)
     (x0 : Ctx κ) (hsim0 : ms.x.sim = x0.sim) (hpc0 : ms.x.prevConsumed = x0.prevConsumed)
     (hsink : SinkBrk env.ops inpS d0 d x0 ms.x.sink) :
     BreakOut env.tbl fs env.ops inpS inpW δ d0 x0 mw0 (breakOnEndOfInput inpS ms) := by
   have hsm' : sm ≠ .stale := by
     rcases hsm with h | ⟨h, _⟩ <;> rw [h] <;> intro hh <;> cases hh
-  rcases break_split (inpS := inpS) h rfl hl (fun g => cx.ok.sn2 g) hsm' npw0 hnp hc0 hx0 hr0 with hp | ⟨c, hsig, hbr, hx, hst, hent, hc1⟩
+  have hout : (if hasSeq sd = true then SeqMode.stale else SeqMode.none) = .stale ∨
+      ((if hasSeq sd = true then SeqMode.stale else SeqMode.none) = .none ∧ chSeqOf ms.r = none ∧ chSeqOf mw0.r = none) := by
+    cases hhs : hasSeq sd with
+    | true => exact Or.inl rfl
+    | false =>
+      right
+      refine ⟨rfl, ?_, hq0 hhs⟩
+      rcases hsm with h' | ⟨_, h'⟩
+      · subst h'; exact (chSeqOf_none_of_rel h).1
+      · rw [hhs] at h'; cases h'
+  rcases break_split (inpS := inpS) h rfl hl (fun g => cx.ok.sn2 g) hsm' npw0 hnp hc0 hx0 hr0 _ hout with hp | ⟨c, hsig, hbr, hx, hst, hent, hc1⟩
   · exact Or.inl hp
-  · refine Or.inr ⟨c, d, ms.c.nextPos - 1 + δ - npw0, hsig, ⟨(if sm = .inSeq then .stale else .none), ?_, ?_⟩,
+  · refine Or.inr ⟨c, d, ms.c.nextPos - 1 + δ - npw0, hsig, ⟨(if hasSeq sd = true then SeqMode.stale else SeqMode.none), ?_, ?_⟩,
       by rw [hx]; exact hsim0, by rw [hx]; exact hpc0, by rw [hx]; exact hsink⟩
     · rw [cx.flagsOf hst hent]
       rw [Ab.inStep_boundary cx.ok.p2] at hbr
@@ -346,9 +372,9 @@ theorem breakOut_of_split {fs : FlagMap} {st : StateId} {sd : StateDef} {d0 d : 
       rw [hst, cx.st_eq, cx.look] at hlook
       cases hlook
       refine ⟨?_, hdebt, fun hpos => ?_⟩
-      · rcases hsm with h | ⟨h, hs⟩
-        · left; rw [h]; rfl
-        · right; rw [h]; exact ⟨by simp, hs, by rw [hent]; exact cx.ent⟩
+      · cases hhs : hasSeq sd with
+        | true => right; exact ⟨by simp, rfl, by rw [hent]; exact cx.ent⟩
+        | false => left; simp
       · obtain ⟨nd, h1, h2⟩ := hskip hpos
         refine ⟨nd, h1, by rw [hent]; exact cx.ent, ?_⟩
         rw [hc0]; exact h2
